@@ -183,11 +183,15 @@ package server
 //@   props C18
 
 //@ func (*MetaCDC).ReloadTask
-//@   props C18
+//@   props C18 C10
 //@   requires e != nil && e.metaStoreFactory != nil
+//@   requires e.collectionNames.data != nil && e.collectionNames.excludeData != nil && e.collectionNames.extraInfos != nil
 // only what is handed to the logger matters here: the task helpers are treated as unknown calls
 //@   opaque pauseTaskWithReason getTaskUniqueIDFromInfo startInternal
-//@   loop 1 invariant true
+//@   private MetaCDC.collectionNames maps(string;model.ExtraInfo) meta.TaskInfo.ExtraInfo
+// C10: the bookkeeping rebuilt at restart is what the stored tasks imply - the user-role flag of a target is held as
+// soon as one of its tasks holds it, whatever the order in which the tasks are reloaded
+//@   loop 1 invariant [reloading-a-task-never-frees-a-user-role-flag-recorded-for-an-earlier-task] forall k string :: {mget(e.collectionNames.extraInfos, k)} prev(e.collectionNames.extraInfos[k].EnableUserRole) ==> e.collectionNames.extraInfos[k].EnableUserRole
 
 // ---- C19 / C10: the duplicate-detection bookkeeping ------------------------------------------------------------
 // matchCollectionName(sample, target): does the specification `sample` ("db.coll", either part may be "*")
